@@ -181,6 +181,15 @@ FAMILIES["cluster"] = {
                     "convergence for every schedule is not a theorem: peer selection is random in the code; the settling time is observed"],
 }
 
+FAMILIES["liferace"] = {
+    "name": "liferace", "props": ["C20"], "models": "(none: runtime behaviour)", "tiers": ["thorough"],
+    "harness": COMMON + ["zz_vf_wire_test.go", "zz_vf_life_test.go"], "test": "TestVfLifeRace",
+    "goflags": ["-race"], "env": {"VF_RACE": "1", "VF_RACE_SECONDS": "60"},
+    "n": {"quick": 0, "thorough": 0}, "no_shrink": True,
+    "codes": [], "code_names": {},
+    "assumptions": ["data races are observed with the Go race detector on randomly interleaved public calls from six goroutines against the background activity (60 s), not proved"],
+}
+
 # a property may be served by several families (run in order); the first is its primary one
 PROPS = {}
 for f, d in sorted(FAMILIES.items(), key=lambda kv: 0 if kv[0] in ("susp", "queue", "wire", "stream") else 1):
